@@ -26,7 +26,7 @@ JS = (None, '0', 'x', '17')
 CFGS = (None, ['polling'], ['websocket'])
 
 
-def _build(fl, cfg, sk):
+def _build(fl, cfg, sk, bystander=True):
     """Server with a bystander polling session (one queued message) and the session of kind ``sk``."""
     kw = {}
     if cfg is not None:
@@ -34,12 +34,13 @@ def _build(fl, cfg, sk):
     sut = mk(fl, async_handlers=False, **kw)
     st = {'sut': sut, 'sid': None, 'peer': None, 'by': None, 'by_peer': None}
     first = 'websocket' if cfg == ['websocket'] else 'polling'
-    b = sut.open(first)
-    sut.settle()
-    st['by'] = sut.sids()[0]
-    st['by_peer'] = b.peer
-    sut.app_send(st['by'], 'for-bystander')
-    sut.settle()
+    if bystander:
+        b = sut.open(first)
+        sut.settle()
+        st['by'] = sut.sids()[0]
+        st['by_peer'] = b.peer
+        sut.app_send(st['by'], 'for-bystander')
+        sut.settle()
     if sk in ('absent',):
         return st
     if sk == 'unknown':
